@@ -141,6 +141,12 @@ func (w *faultWriter) Write(p []byte) (int, error) {
 	return len(p), nil
 }
 
+// faultStringWriter is the same writer with a WriteString method (io.StringWriter), as *os.File, bufio.Writer or
+// strings.Builder have: code that prefers WriteString must report its failures as well.
+type faultStringWriter struct{ *faultWriter }
+
+func (w faultStringWriter) WriteString(s string) (int, error) { return w.faultWriter.Write([]byte(s)) }
+
 // parseTSPLIB is an independent reader of the subset of TSPLIB that LIB promises.
 func parseTSPLIB(out string, n int) (weights []int, err error) {
 	idx := strings.Index(out, "EDGE_WEIGHT_SECTION")
@@ -312,8 +318,12 @@ func checkTspCase(c tspCase, rec *Rec) error {
 					kind += 2
 				}
 				fw := &faultWriter{failAt: f, permanent: perm, partial: partial, err: faultErrors[kind%len(faultErrors)]}
+				var target io.Writer = fw
+				if kind%3 == 1 {
+					target = faultStringWriter{fw}
+				}
 				var ferr error
-				if p := try(func() { ferr = tsp.LIB(fw, n, weights) }); p != nil {
+				if p := try(func() { ferr = tsp.LIB(target, n, weights) }); p != nil {
 					return fmt.Errorf("LIB(n=%d) panicked with write #%d failing: %v", n, f, p)
 				}
 				sched++
@@ -332,8 +342,12 @@ func checkTspCase(c tspCase, rec *Rec) error {
 		for f := 0; f < W; f++ {
 			for _, e := range faultErrors {
 				fw := &faultWriter{failAt: f, partial: true, err: e}
+				var target io.Writer = fw
+				if (f+len(e.Error()))%2 == 0 {
+					target = faultStringWriter{fw}
+				}
 				var ferr error
-				if p := try(func() { ferr = tsp.LIB(fw, n, weights) }); p != nil {
+				if p := try(func() { ferr = tsp.LIB(target, n, weights) }); p != nil {
 					return fmt.Errorf("LIB(n=%d) panicked with write #%d failing with %q: %v", n, f, e, p)
 				}
 				sched++
